@@ -341,8 +341,28 @@ pub fn generate(rng: &mut Rng, max_ops: usize) -> Workload {
             13 => {
                 let v = fresh(rng, kind, true);
                 let n = rng.below(5) as usize;
-                src.push_str(&format!("a = array.filled({}, {n})\n", v.src()));
-                a = vec![v; n];
+                if kind == Kind::Nested && n >= 1 && rng.chance(2, 3) {
+                    // the template stays in a variable: every slot must be a copy independent of
+                    // it and of every other slot
+                    src.push_str(&format!("let tpl{tag} = {}\n", v.src()));
+                    src.push_str(&format!("a = array.filled(tpl{tag}, {n})\n"));
+                    a = vec![v.clone(); n];
+                    src.push_str(&format!("tpl{tag}.push(66)\n"));
+                    let last = n - 1;
+                    src.push_str(&format!("a[{last}].push(55)\n"));
+                    if let Elem::Nested(inner) = &mut a[last] {
+                        inner.push(55);
+                    }
+                    let mut t = v.clone();
+                    if let Elem::Nested(inner) = &mut t {
+                        inner.push(66);
+                    }
+                    src.push_str(&format!("obs({}, show_e(tpl{tag}))\n", 3000 + tag));
+                    obs.push((3000 + tag, t.show()));
+                } else {
+                    src.push_str(&format!("a = array.filled({}, {n})\n", v.src()));
+                    a = vec![v; n];
+                }
                 if kind == Kind::Nested && n >= 2 {
                     // the copies must be independent of each other
                     src.push_str("a[0].push(77)\n");
